@@ -11,8 +11,9 @@ Sort modes:
 import os, re, subprocess, sys, time, hashlib
 from smt import land, lor, lnot, ite, fp_lit, bv64, int_lit
 
-VERIF = os.path.dirname(os.path.dirname(os.path.abspath(__file__)))
-WORK = os.environ.get("VERIF_WORK", os.path.join(VERIF, ".work"))
+import paths
+VERIF = paths.VERIF
+WORK = paths.WORK
 
 
 class NotTranslatable(Exception):
@@ -22,8 +23,9 @@ class NotTranslatable(Exception):
 # --------------------------------------------------------------------------------------- dump
 
 
-def dump_mir(repo="/repo", force=False):
+def dump_mir(repo=None, force=False):
     """Dump the MIR of /repo's current working tree (scratch copy, nightly). Returns (path, seconds)."""
+    repo = repo or paths.REPO
     t0 = time.time()
     os.makedirs(WORK, exist_ok=True)
     src = os.path.join(WORK, "mirsrc")
@@ -45,7 +47,7 @@ def dump_mir(repo="/repo", force=False):
     env["CARGO_NET_OFFLINE"] = "true"
     env.pop("RUSTFLAGS", None)
     with open(out + ".tmp", "w") as fo, open(os.path.join(WORK, "mir.err"), "w") as fe:
-        p = subprocess.run(["cargo", "+nightly", "rustc", "--offline", "--lib", "--target-dir", os.path.join(VERIF, ".target", "mir"),
+        p = subprocess.run(["cargo", "+nightly", "rustc", "--offline", "--lib", "--target-dir", paths.target("mir"),
                             "--", "-Zunpretty=mir", "-C", "debug-assertions=off", "-C", "overflow-checks=on"],
                            cwd=src, env=env, stdout=fo, stderr=fe)
     if p.returncode != 0 or os.path.getsize(out + ".tmp") < 1000:
@@ -549,7 +551,7 @@ _IMPL_INDEX = {}
 
 
 class Translator:
-    def __init__(self, fns, enc, src_root="/repo", inline_depth=4, stubs=None):
+    def __init__(self, fns, enc, src_root=paths.REPO, inline_depth=4, stubs=None):
         self.stubs = stubs or []
         self.stub_syms = []
         self.stubs_used = []
